@@ -104,6 +104,11 @@ package clause
 //@ # ---------- C15/C06: ORDER BY columns accumulate in call order, in the chain's own list ----------
 //@ # "In primary-key order" (FindInBatches, First, Last) rests on the ordering a chain asked for being the ordering
 //@ # it gets: earlier columns first, then the new ones, in a list that no sibling chain shares.
+//@ # GROUP BY columns and HAVING conditions accumulate in the chain's own lists: a sibling chain's HAVING argument must
+//@ # not replace this chain's (its value would never reach the driver: C01), nor the handle's (C06).
+//@ func (GroupBy).MergeClause
+//@   tags C06 C01
+//@   modifies *clause
 //@ func (OrderBy).MergeClause
 //@   tags C15 C06
 //@   modifies *clause
